@@ -536,7 +536,7 @@ package server
 //@     ghost isnewG := $result1
 //@   at call Marshal#1 before
 //@     assert [C09:seen-recorded-while-a-sync-is-active] ds.fullSyncStarted ==> has(ds.fullSyncSeen, rid)
-//@     assert [C06:version-stamped-with-transaction-time] e.Recorded == txnTime && e.InternalID == rid
+//@     assert [C06,C01:version-stamped-with-transaction-time] e.Recorded == txnTime && e.InternalID == rid
 //@   at call Get#2
 //@     ghost hasStoredG := true
 //@   at $2 call IsEntityEqual#1
@@ -549,36 +549,36 @@ package server
 //@     ghost eqLocalG := $result
 //@   at call Set#1 before
 //@     assert [C01,C02:write-only-if-new-or-different] isnewG || (hasLocalG && !eqLocalG) || (!hasLocalG && !(hasStoredG && eqStoredG))
-//@     assert [C01,C04:json-key-layout] $arg0 == txn && len(key) == 24 && encBE16(key, 0) == 1 && encBE64(key, 2) == rid && encBE32(key, 10) == ds.InternalID && encBE64(key, 14) == txnTime && encBE16(key, 22) == batchSeqNum
+//@     assert [C01,C04,C06,C07:json-key-layout] $arg0 == txn && len(key) == 24 && encBE16(key, 0) == 1 && encBE64(key, 2) == rid && encBE32(key, 10) == ds.InternalID && encBE64(key, 14) == txnTime && encBE16(key, 22) == batchSeqNum
 //@     assert [C01:json-value-is-this-version] val == jsonData
 //@     assert [C03:reference-diff-uses-the-in-batch-predecessor-when-there-is-one] hasLocalG ==> prevEntity == localPrevG
 //@     ghost wroteG := true
 //@   at call Set#2 before
-//@     assert [C02,C04:change-key-layout] $arg0 == txn && len(key) == 22 && encBE16(key, 0) == 4 && encBE32(key, 2) == ds.InternalID && encBE64(key, 6) == nextEntitySeq && encBE64(key, 14) == rid
+//@     assert [C02,C04,C07,C18:change-key-layout] $arg0 == txn && len(key) == 22 && encBE16(key, 0) == 4 && encBE32(key, 2) == ds.InternalID && encBE64(key, 6) == nextEntitySeq && encBE64(key, 14) == rid
 //@     assert [C02:change-entry-names-this-version] val == entityIDBuffer
 //@   at call Set#3 before
-//@     assert [C01,C04:latest-key-layout] $arg0 == txn && len(key) == 14 && encBE16(key, 0) == 8 && encBE32(key, 2) == ds.InternalID && encBE64(key, 6) == rid
+//@     assert [C01,C04,C07:latest-key-layout] $arg0 == txn && len(key) == 14 && encBE16(key, 0) == 8 && encBE32(key, 2) == ds.InternalID && encBE64(key, 6) == rid
 //@     assert [C01:latest-points-to-written-version] val == entityIDBuffer
 //@   at call Set#4 before
-//@     assert [C03,C06:outgoing-key-new-entity] $arg0 == txn && len(key) == 40 && encBE16(key, 0) == 3 && encBE64(key, 2) == rid && encBE64(key, 10) == txnTime && encBE64(key, 18) == predid && encBE64(key, 26) == relatedid && encBE16(key, 34) == (e.IsDeleted ? 1 : 0) && encBE32(key, 36) == ds.InternalID
+//@     assert [C03,C06,C07:outgoing-key-new-entity] $arg0 == txn && len(key) == 40 && encBE16(key, 0) == 3 && encBE64(key, 2) == rid && encBE64(key, 10) == txnTime && encBE64(key, 18) == predid && encBE64(key, 26) == relatedid && encBE16(key, 34) == (e.IsDeleted ? 1 : 0) && encBE32(key, 36) == ds.InternalID
 //@   at call Set#5 before
-//@     assert [C03,C06:incoming-twin-new-entity] $arg0 == txn && len(key) == 40 && encBE16(key, 0) == 2 && encBE64(key, 2) == relatedid && encBE64(key, 10) == rid && encBE64(key, 18) == txnTime && encBE64(key, 26) == predid && encBE16(key, 34) == (e.IsDeleted ? 1 : 0) && encBE32(key, 36) == ds.InternalID
+//@     assert [C03,C06,C07:incoming-twin-new-entity] $arg0 == txn && len(key) == 40 && encBE16(key, 0) == 2 && encBE64(key, 2) == relatedid && encBE64(key, 10) == rid && encBE64(key, 18) == txnTime && encBE64(key, 26) == predid && encBE16(key, 34) == (e.IsDeleted ? 1 : 0) && encBE32(key, 36) == ds.InternalID
 //@   at call Set#6 before
-//@     assert [C03,C06:incoming-tombstone-deleted-entity] $arg0 == txn && len(key) == 40 && encBE16(key, 0) == 2 && encBE64(key, 10) == rid && encBE64(key, 18) == txnTime && encBE64(key, 26) == p && encBE16(key, 34) == 1 && encBE32(key, 36) == ds.InternalID
+//@     assert [C03,C06,C07:incoming-tombstone-deleted-entity] $arg0 == txn && len(key) == 40 && encBE16(key, 0) == 2 && encBE64(key, 10) == rid && encBE64(key, 18) == txnTime && encBE64(key, 26) == p && encBE16(key, 34) == 1 && encBE32(key, 36) == ds.InternalID
 //@   at call Set#7 before
-//@     assert [C03,C06:outgoing-tombstone-deleted-entity] $arg0 == txn && len(key) == 40 && encBE16(key, 0) == 3 && encBE64(key, 2) == rid && encBE64(key, 10) == txnTime && encBE64(key, 18) == p && encBE16(key, 34) == 1 && encBE32(key, 36) == ds.InternalID
+//@     assert [C03,C06,C07:outgoing-tombstone-deleted-entity] $arg0 == txn && len(key) == 40 && encBE16(key, 0) == 3 && encBE64(key, 2) == rid && encBE64(key, 10) == txnTime && encBE64(key, 18) == p && encBE16(key, 34) == 1 && encBE32(key, 36) == ds.InternalID
 //@   at call Set#8 before
-//@     assert [C03,C06:outgoing-key-live] $arg0 == txn && len(key) == 40 && encBE16(key, 0) == 3 && encBE64(key, 2) == rid && encBE64(key, 10) == txnTime && encBE64(key, 18) == predid && encBE64(key, 26) == relatedid && encBE16(key, 34) == 0 && encBE32(key, 36) == ds.InternalID
+//@     assert [C03,C06,C07:outgoing-key-live] $arg0 == txn && len(key) == 40 && encBE16(key, 0) == 3 && encBE64(key, 2) == rid && encBE64(key, 10) == txnTime && encBE64(key, 18) == predid && encBE64(key, 26) == relatedid && encBE16(key, 34) == 0 && encBE32(key, 36) == ds.InternalID
 //@   at call Set#9 before
-//@     assert [C03,C06:incoming-twin-live] $arg0 == txn && len(key) == 40 && encBE16(key, 0) == 2 && encBE64(key, 2) == relatedid && encBE64(key, 10) == rid && encBE64(key, 18) == txnTime && encBE64(key, 26) == predid && encBE16(key, 34) == 0 && encBE32(key, 36) == ds.InternalID
+//@     assert [C03,C06,C07:incoming-twin-live] $arg0 == txn && len(key) == 40 && encBE16(key, 0) == 2 && encBE64(key, 2) == relatedid && encBE64(key, 10) == rid && encBE64(key, 18) == txnTime && encBE64(key, 26) == predid && encBE16(key, 34) == 0 && encBE32(key, 36) == ds.InternalID
 //@   at call Delete#1 before
 //@     assert [C06:delete-only-own-txn-outgoing-tombstone] $arg0 == txn && encBE16(key, 0) == 3 && encBE64(key, 2) == rid && encBE64(key, 10) == txnTime && encBE64(key, 18) == predid && encBE64(key, 26) == relatedid && encBE16(key, 34) == 1 && encBE32(key, 36) == ds.InternalID
 //@   at call Delete#2 before
 //@     assert [C06:delete-only-own-txn-incoming-tombstone] $arg0 == txn && encBE16(key, 0) == 2 && encBE64(key, 2) == relatedid && encBE64(key, 10) == rid && encBE64(key, 18) == txnTime && encBE64(key, 26) == predid && encBE16(key, 34) == 1 && encBE32(key, 36) == ds.InternalID
 //@   at call Set#10 before
-//@     assert [C03,C06:incoming-tombstone-removed-ref] $arg0 == txn && len(key) == 40 && encBE16(key, 0) == 2 && encBE64(key, 10) == rid && encBE64(key, 18) == txnTime && encBE64(key, 26) == p && encBE16(key, 34) == 1 && encBE32(key, 36) == ds.InternalID
+//@     assert [C03,C06,C07:incoming-tombstone-removed-ref] $arg0 == txn && len(key) == 40 && encBE16(key, 0) == 2 && encBE64(key, 10) == rid && encBE64(key, 18) == txnTime && encBE64(key, 26) == p && encBE16(key, 34) == 1 && encBE32(key, 36) == ds.InternalID
 //@   at call Set#11 before
-//@     assert [C03,C06:outgoing-tombstone-removed-ref] $arg0 == txn && len(key) == 40 && encBE16(key, 0) == 3 && encBE64(key, 2) == rid && encBE64(key, 10) == txnTime && encBE64(key, 18) == p && encBE16(key, 34) == 1 && encBE32(key, 36) == ds.InternalID
+//@     assert [C03,C06,C07:outgoing-tombstone-removed-ref] $arg0 == txn && len(key) == 40 && encBE16(key, 0) == 3 && encBE64(key, 2) == rid && encBE64(key, 10) == txnTime && encBE64(key, 18) == p && encBE16(key, 34) == 1 && encBE32(key, 36) == ds.InternalID
 //@   loop 1
 //@     invariant -1 <= $i && $i < len(entities)
 //@     invariant [C01,C02:skip-only-if-identical] firstG || wroteG || (!isnewG && ((hasLocalG && eqLocalG) || (!hasLocalG && hasStoredG && eqStoredG)))
@@ -672,16 +672,16 @@ package server
 //@   requires dsm != nil && dsm.store != nil && !has($held, addrOf(dsm.lock))
 //@   requires [callers-hold-no-lock] forall l int :: has($held, l) ==> lockLevel(l) < 1
 //@   ensures [C07:published-deleted-set-never-mutated] forall k uint32 :: has(old(dsm.store.deletedDatasets), k) <==> old(has(dsm.store.deletedDatasets, k))
-//@   ensures [C07:acknowledged-delete-is-recorded] result == nil ==> has(dsm.store.deletedDatasets, idG) && has($persisted, "deleteddatasets")
+//@   ensures [C07,C14:acknowledged-delete-is-recorded] result == nil ==> has(dsm.store.deletedDatasets, idG) && has($persisted, "deleteddatasets")
 //@   ensures [C07:earlier-deletions-stay-recorded] forall k uint32 :: old(has(dsm.store.deletedDatasets, k)) ==> has(dsm.store.deletedDatasets, k)
-//@   ensures [C07:record-removed-only-after-the-deleted-set-was-persisted] $recordsDeleted > old($recordsDeleted) ==> has($persisted, "deleteddatasets") && has(dsm.store.deletedDatasets, idG)
+//@   ensures [C07,C14:record-removed-only-after-the-deleted-set-was-persisted] $recordsDeleted > old($recordsDeleted) ==> has($persisted, "deleteddatasets") && has(dsm.store.deletedDatasets, idG)
 //@   at call IsDataset#1 before
 //@     assert [C05:existence-checked-under-the-manager-lock] has($held, addrOf(dsm.lock))
 //@   at call GetDataset#1
 //@     ghost idG := $result.InternalID
 //@   at call StoreObject#1 before
 //@     assert [C14:deleted-set-written-under-the-key-open-reads] id == "deleteddatasets" && collection == StoreMetaIndex
-//@     assert [C07:persisted-set-contains-this-dataset-and-all-earlier-ones] has(newDeletedDatasets, existingDataset.InternalID) && (forall k uint32 :: has(dsm.store.deletedDatasets, k) ==> has(newDeletedDatasets, k))
+//@     assert [C07,C14:persisted-set-contains-this-dataset-and-all-earlier-ones] has(newDeletedDatasets, existingDataset.InternalID) && (forall k uint32 :: has(dsm.store.deletedDatasets, k) ==> has(newDeletedDatasets, k))
 //@   at call Delete#1 before
 //@     ghost unregG := unregG + 1
 //@   at call Delete#2 before
@@ -794,12 +794,12 @@ package server
 //@     ghost idPersistedG := $result == nil
 //@   at call storeValue#1 before
 //@     assert [C14:next-dataset-id-written-under-the-key-open-reads] arrOf(key) == arrOf(StoreNextDatasetIDBytes) && len(key) == len(StoreNextDatasetIDBytes) && len(value) == 4
-//@     assert [C07,C04:persisted-next-id-is-above-the-new-datasets-id] encBE32(value, 0) == freshG + 1 && ds.InternalID == freshG && dsm.store.nextDatasetID == freshG + 1
+//@     assert [C07,C04,C14:persisted-next-id-is-above-the-new-datasets-id] encBE32(value, 0) == freshG + 1 && ds.InternalID == freshG && dsm.store.nextDatasetID == freshG + 1
 //@   at call Marshal#1 before
 //@     assert [C19,C14:persisted-record-carries-the-requested-configuration] createDatasetConfig != nil ==> ds.ProxyConfig == createDatasetConfig.ProxyDatasetConfig && ds.VirtualDatasetConfig == createDatasetConfig.VirtualDatasetConfig && arrOf(ds.PublicNamespaces) == arrOf(createDatasetConfig.PublicNamespaces) && len(ds.PublicNamespaces) == len(createDatasetConfig.PublicNamespaces)
 //@     assert [C19,C14:record-serialised-from-the-new-dataset] cast(v, "*server.Dataset") == ds
 //@   at call storeValue#2 before
-//@     assert [C04:next-id-persisted-before-the-dataset-record] idPersistedG && ds.InternalID == freshG
+//@     assert [C04,C07:next-id-persisted-before-the-dataset-record] idPersistedG && ds.InternalID == freshG
 //@   at call storeEntity#1 before
 //@     assert [C19:meta-entity-stored-in-core-dataset-after-the-record] $valuesStored == old($valuesStored) + 2
 
